@@ -8,19 +8,26 @@ sqlite3.IntegrityError instead of every execute call, and the death of the proce
 Oracle: the database read afterwards by a new connection equals exactly S(j), j = number of commit points whose COMMIT
 was performed before the fault -- never a state in between.
 """
-import os, shutil
+import os, shutil, time
 from vlib import c17_prog as P
 from vlib.runner import Violation, chash
 
 ID = 'C17'
 LEVEL = 'fault_enumeration'
-RULE = ('A program is pure data: 1-3 db_sessions (optimistic / immediate=True / serializable=True / optimistic=False) of 1-6 '
+RULE = ('Part 1, complete grid: every statement-at-once write (raw execute insert/update, db.insert, bulk delete, obj.flush() '
+        'after create/update/delete) as the FIRST write of a session, and every nested-session form (with db_session, '
+        'db_session(sql_debug=False), @db_session / @db_session(sql_debug=False|True) / @db_session(immediate=True) helpers, '
+        'sql_debugging) in the middle of a session, x 4 session modes x {cold, warm statement caches}. Part 2, generated: '
+        'a program is pure data: 1-3 db_sessions (optimistic / immediate=True / serializable=True / optimistic=False) of 1-6 '
         'operations each (create, update, delete, many-to-many add/remove/assign, raw db.execute insert/update, db.insert, '
-        'bulk and per-object query delete, flush()/obj.flush()/commit()/rollback() at generated points, create/update/delete saved at once with obj.flush(), reads), ending in '
+        'bulk and per-object query delete, flush()/obj.flush()/commit()/rollback() at generated points, create/update/delete saved at once with obj.flush(), one operation inside a nested db_session form, reads; half of '
+        'the sessions start with a statement-at-once write), optionally warm (the program ran once before on the same Database '
+        'object, then the file was restored and the pooled connection closed), ending in '
         'commit or in an exception, over a fixed 4-entity model on a file database. For every generated program EVERY call '
         'index k of its fault-free DB-API call log (connect/cursor/execute/executemany/commit/rollback/close) is enumerated '
         'with: OperationalError before the call, OperationalError after the call was performed, IntegrityError before every '
-        'execute/executemany, and process death (os._exit(137) in a child process) right before the call; plus the '
+        'execute/executemany, and process death (os._exit(137) in a child process) right before the call (for every call but '
+        'cursor(), before which death is the same event as before the following call); plus the '
         'fault-free run itself. One evaluation = one (program, k, variant). The database read afterwards by a fresh sqlite3 '
         'connection must equal the committed prefix state S(j), j = commit points whose COMMIT call was performed before the '
         'fault (a fault after the performed COMMIT counts it); for error variants also after a following session of the same '
@@ -28,15 +35,16 @@ RULE = ('A program is pure data: 1-3 db_sessions (optimistic / immediate=True / 
         'written at least one row; distinct by hash of (program, k, variant).')
 ASSUMPTIONS = ['SQLite 3.40 file database in rollback-journal mode; SQLite itself is trusted to make BEGIN..COMMIT atomic and '
                'to roll back a hot journal left by a dead process',
-               'process death is os._exit(137) of a child process whose runs are frozen (threads stopped without unwinding) '
-               'at their call k; power loss / torn pages are not modelled',
+               'process death is os._exit(137) of a child process in which each run was abandoned at its call k: from that call '
+               'on no DB-API call of the run reaches SQLite (the layer raises instead), so the connection stays as it was, '
+               'transaction open, until the process dies; power loss / torn pages are not modelled',
                'the fault layer (sqlite3.Connection/Cursor subclasses given to Pony as factory=) raises genuine sqlite3 errors; it '
                'opens every connection with PRAGMA synchronous=OFF (no fsync: irrelevant for errors and process death, which '
                'are what is injected)',
                'PostgreSQL autocommit switching is not exercised (no server or driver in the sandbox)']
 SHARDS = {'quick': 4, 'thorough': 16}
 MIN_EVALS = {'quick': 600, 'thorough': 10000}
-CLASS_FLOORS = {'nontrivial': 0.10, 'variant:crash': 0.15}
+CLASS_FLOORS = {'nontrivial': 0.10, 'variant:crash': 0.08}
 EXCLUSIONS = {}
 
 MANIFEST = {
@@ -57,6 +65,13 @@ def variants(call):
     return out
 
 
+def crash_points(dry):
+    """process death is enumerated right before every call except cursor(): creating a cursor touches neither the file nor the
+    connection's transaction and Pony performs no other DB-API call in between, so death right before cursor() call k is the
+    same event as death right before call k+1, which is in the list"""
+    return [k for k in range(dry.n) if dry.calls[k]['kind'] != 'cursor']
+
+
 def session_of(dry, k):
     s = 0
     for i, lo in enumerate(dry.session_starts):
@@ -65,9 +80,10 @@ def session_of(dry, k):
     return s
 
 
-def evaluate(ctx, program, template, workdir, server, family=None, stats=None):
+def evaluate(ctx, program, template, workdir, server, family=None, stats=None, batch=None):
     """all fault runs of one program; reports through ctx.fail"""
     path = os.path.join(workdir, 'run.sqlite')
+    t_start = time.time()
     dry = P.DryRun(template, path, program)
     if dry.harness_error is not None:
         raise dry.harness_error
@@ -99,18 +115,33 @@ def evaluate(ctx, program, template, workdir, server, family=None, stats=None):
                     if msg.startswith('harness:'):
                         raise RuntimeError(msg)
                     ctx.fail({'program': program, 'k': k, 'when': when, 'exc': exc}, msg)
+    ctx.extra['error_part_s'] = round(ctx.extra.get('error_part_s', 0) + time.time() - t_start, 2)
     if family in (None, 'crash'):
-        for k, msg in P.crash_runs(server, template, workdir, program, dry, list(range(dry.n))):
-            call = dry.calls[k]
-            classes = ['variant:crash', 'kind:' + call['kind'], 'mode:' + modes[session_of(dry, k)]]
-            if dry.dirty[k]:
-                classes.append('nontrivial')
-            if msg and msg.startswith('inconclusive'):
-                ctx.inconclusive += 1
-                continue
-            ctx.case(key=[ph, k, 'before', 'crash'], nontrivial=dry.dirty[k], classes=classes)
-            if msg:
-                ctx.fail({'program': program, 'k': k, 'when': 'before', 'exc': 'crash'}, msg)
+        ks = crash_points(dry)
+        if batch is not None:
+            batch.append((program, dry, ks))
+        else:
+            judge_crash(ctx, server, template, workdir, [(program, dry, ks)])
+
+
+def judge_crash(ctx, server, template, workdir, jobs):
+    t_start = time.time()
+    results = list(P.crash_batch(server, template, workdir, jobs))
+    ctx.extra['crash_part_s'] = round(ctx.extra.get('crash_part_s', 0) + time.time() - t_start, 2)
+    for j, k, msg in results:
+        program, dry, _ = jobs[j]
+        call = dry.calls[k]
+        modes = [s.get('mode', 'optimistic') for s in program['sessions']]
+        classes = ['variant:crash', 'kind:' + call['kind'], 'mode:' + modes[session_of(dry, k)]]
+        if dry.dirty[k]:
+            classes.append('nontrivial')
+        if msg and msg.startswith('inconclusive'):
+            ctx.inconclusive += 1
+            ctx.extra.setdefault('inconclusive_example', msg[:300] + ' ' + repr(program))
+            continue
+        ctx.case(key=[chash(program), k, 'before', 'crash'], nontrivial=dry.dirty[k], classes=classes)
+        if msg:
+            ctx.fail({'program': program, 'k': k, 'when': 'before', 'exc': 'crash'}, msg)
 
 
 def run(ctx):
@@ -128,7 +159,22 @@ def run(ctx):
             found['family'] = 'crash' if v.case.get('exc') == 'crash' else 'error'   # keeps shrinking cheap
             raise
     try:
-        ctx.run_test(t, {'program': P.programs()}, max_examples=ctx.scale(18, 60), name='programs')
+        # part 1: complete small grid (first write of a session x session mode x cold/warm caches; nested session forms)
+        batch = []
+        for gi, program in enumerate(P.grid_programs()):
+            if gi % ctx.nshards != ctx.shard:
+                continue
+            ctx.count('part:grid-program')
+            evaluate(ctx, program, template, ctx.workdir, server, stats=stats, batch=batch)
+            if len(batch) >= 10:
+                judge_crash(ctx, server, template, ctx.workdir, batch)
+                del batch[:]
+        if batch:
+            judge_crash(ctx, server, template, ctx.workdir, batch)
+        ctx.extra['grid_part_s'] = round(time.time() - ctx.t0, 1)
+        ctx.extra['grid_part_evaluations'] = ctx.evaluations
+        # part 2: generated programs
+        ctx.run_test(t, {'program': P.programs()}, max_examples=ctx.scale(10, 60), name='programs')
     finally:
         server.close()
     if ctx.violation is None and 'violation' in found:
